@@ -2,11 +2,22 @@
      P<cwk>:<v>  push      O<cwk>  pop       p<cwk>:<v>  try_push    o<cwk>  try_pop
      N<cwk>:<v;v;..> push_n   M<cwk>:<n> pop_n   n<cwk>:<v;..> try_push_n   m<cwk>:<n> try_pop_n
      U<cwk>:<n>:<tmo> try_pop_n_exclusively_until       (c,w,k = CONCURRENT, USE_FUTEX_WAIT, USE_FUTEX_WAKE as 0/1)
+   an optional letter after the flags names the public overload the client calls (default: the callback overload with
+   template arguments): v value / reference, q pointer, i iterators, d callback without template arguments, e value
+   without template arguments, r pointer without template arguments, j iterators without template arguments.  The machine
+   runs `lower` of every call (flags after all forwarding wrappers, regenerated from the source).
    Prints every outcome the model admits (all schedules, clock ticks up to the bound). *)
 let parse_flags (s : string) : flags = { conc = s.[0] = '1'; fwait = s.[1] = '1'; fwake = s.[2] = '1' }
-let parse_op (o : string) : op =
+let parse_entry (hd : string) : entry =
+  if String.length hd < 5 then EnCb else
+  match hd.[4] with
+  | 'v' -> EnVal | 'q' -> EnPtr | 'i' -> EnIt | 'd' -> EnDefCb | 'e' -> EnDefVal | 'r' -> EnDefPtr | 'j' -> EnDefIt
+  | c -> failwith ("bad entry " ^ String.make 1 c)
+let parse_op (o : string) : call =
   let parts = String.split_on_char ':' o in
   let hd = List.hd parts in
+  let mk (x : op) : call = { c_entry = parse_entry hd; c_op = x } in
+  mk @@
   let f = parse_flags (String.sub hd 1 3) in
   let arg k = List.nth parts k in
   let zs s = List.map (fun x -> z_of_int (int_of_string x)) (List.filter (fun x -> x <> "") (String.split_on_char ';' s)) in
@@ -29,8 +40,9 @@ let show_res (r : res) : string =
 let () = iter_lines (fun line ->
   match words line with
   | [id; k; bound; maxst; prog] ->
-    let progs = List.map (fun th -> List.map parse_op (List.filter (fun x -> x <> "") (String.split_on_char ',' th)))
+    let cprogs = List.map (fun th -> List.map parse_op (List.filter (fun x -> x <> "") (String.split_on_char ',' th)))
         (String.split_on_char '|' prog) in
+    let progs = lower_progs cprogs in
     let nt = List.length progs in
     let bound = int_of_string bound in
     let kk = nat_of_int (int_of_string k) in
@@ -52,6 +64,8 @@ let () = iter_lines (fun line ->
         Hashtbl.replace outs o ()
       end) terms;
     let l = List.sort compare (Hashtbl.fold (fun k () acc -> k :: acc) outs []) in
-    Printf.printf "%s states=%d trans=%d trunc=%b deadlocks=%d errs=%d lost=%d usage=%b outcomes=%s\n" id nstates ntrans trunc
-      !deadlocks !errs !lost (usage_ok kk progs) (String.concat ";" l)
+    (* usage = the documented pairing rules on the calls as written; wrappers = every call is a real overload, the
+       forwarded flags leave the rules intact and the cores pass their own role *)
+    Printf.printf "%s states=%d trans=%d trunc=%b deadlocks=%d errs=%d lost=%d usage=%b wrappers=%b outcomes=%s\n" id nstates ntrans trunc
+      !deadlocks !errs !lost (usage_ok kk (declared cprogs)) (calls_ok cprogs && cores_ok && usage_ok kk progs) (String.concat ";" l)
   | _ -> ())
